@@ -284,7 +284,7 @@ def main(chk):
     # signatures whose 24-bit hashes collide (the name of an already recorded wrapper must not change)
     for i in range(chk.pick(6, 40)):
         cid += 1
-        cases.append(dict(id=cid, libseed=rng.randrange(1 << 30), collide=rng.choice([2, 2, 3]),
+        cases.append(dict(id=cid, libseed=rng.randrange(1 << 30), collide=rng.choice([2, 3, 4, 6]),
                           cfg=rng.choice([["-c", "-fnames"], ["-c", "-python", "-fnames"], ["-python", "-fnames"],
                                           ["-c", "-fnames", "-unique-names"]])))
     chk.run_cases(__name__, cases)
